@@ -453,6 +453,13 @@ def obj_at(value, path):
     return cur
 
 
+def obj_at_raw(data, path):
+    cur = data
+    for p in path:
+        cur = cur[p]
+    return cur
+
+
 def c05_checks(case, replay_case, feats, value, data, world, rpaths, schema_ref, pkg, cfg, rng, violations, count, op_name, thorough, fragment_names=(),
                authored_doc=None, opnode=None):
     from graphql import GraphQLScalarType
@@ -461,7 +468,20 @@ def c05_checks(case, replay_case, feats, value, data, world, rpaths, schema_ref,
     model_cls = type(value)
     custom_any = {n for n, t in schema_ref.type_map.items() if isinstance(t, GraphQLScalarType) and n not in oracles.BUILTIN}
     static_types = oracles.static_field_types(authored_doc, opnode, schema_ref) if authored_doc is not None else None
-    for kind, path, corrupted in oracles.corruptions(data, world.types, rpaths, custom_any, 40 if thorough else 16, rng, static_types):
+    near = set()
+    if authored_doc is not None:
+        from graphql import FragmentDefinitionNode, InlineFragmentNode, is_abstract_type as _iat2, visit as _visit, Visitor as _Visitor
+
+        class _TC(_Visitor):
+            def enter(self, node, *_):
+                tc = getattr(node, "type_condition", None)
+                if isinstance(node, (InlineFragmentNode, FragmentDefinitionNode)) and tc is not None:
+                    t_ = schema_ref.type_map.get(tc.name.value)
+                    if t_ is not None:
+                        near.update(o.name for o in schema_ref.get_possible_types(t_)) if _iat2(t_) else near.add(t_.name)
+
+        _visit(authored_doc, _TC())
+    for kind, path, corrupted in oracles.corruptions(data, world.types, rpaths, custom_any, 40 if thorough else 16, rng, static_types, schema_ref, near):
         count("c05.corruptions")
         count("c05.kind." + kind)
         try:
@@ -476,6 +496,18 @@ def c05_checks(case, replay_case, feats, value, data, world, rpaths, schema_ref,
         mech = "c05:accepted:" + kind
         if kind == "typename-not-possible":
             holder = obj_at(value, path[:-1])
+            bad_name = obj_at_raw(corrupted, path)
+            from graphql import get_named_type as _gnt, is_abstract_type as _iat
+            bad_type = schema_ref.type_map.get(bad_name) if isinstance(bad_name, str) else None
+            if bad_type is not None and _iat(bad_type):
+                pos_t = oracles.type_at(world.types, path[:-1])
+                fp = path[:-1]
+                while fp and isinstance(fp[-1], int):
+                    fp = fp[:-1]
+                own = {_gnt(pos_t).name} if pos_t is not None else set()
+                own |= {n.strip("[]!") for n in ((static_types or {}).get(oracles.key_path(fp)) or ())}
+                if bad_name in own:
+                    mech = "typename-literal-includes-abstract-type-name"
             if holder is not None:
                 names = oracles.wire_map(type(holder)).get(path[-1], [])  # "__typename" or its alias
                 if len(names) == 1 and type(holder).model_fields[names[0]].annotation is str:
